@@ -158,7 +158,7 @@ PROPS = {
     "C14": {
         "race_build": True,
         "search_tier": "search",
-        "search_seeds": 2,
+        "search_seeds": 3,
         "shrink": False,
         "run_timeout": 3600,
         "manifest": {
